@@ -3,8 +3,8 @@
 # /var/tmp/mut2_<PID>/deliver/m{1,2}/ as seeded changes <PID>-m<first>, <PID>-m<first+1>
 # (log /verif/out/eval2_<PID>.log, input of `MUT_SRC_TEMPLATE=/var/tmp/mut2_{pid} tools/keep_mutants.py`).
 pid=$1; first=${2:-4}; tier=${3:-quick}
-src=/var/tmp/mut2_$pid
-log=/verif/out/eval2_$pid.log
+src=${MUT_SRC:-/var/tmp/mut2_$pid}
+log=/verif/out/${EVAL_TAG:-eval2}_$pid.log
 : > "$log"
 for k in 1 2; do
   d=$src/deliver/m$k; n=$((first + k - 1))
